@@ -31,11 +31,28 @@ def _force(x):
     return x.force() if isinstance(x, _Deferred) else x
 
 
+DEFERRED = [False]
+
+
+class deferred:
+    "context manager: inside it `Select` is deferred (see Seq)"
+
+    def __enter__(self):
+        self.old = DEFERRED[0]
+        DEFERRED[0] = True
+
+    def __exit__(self, *a):
+        DEFERRED[0] = self.old
+
+
 class Seq(list):
-    """Sequences of the world.  `Select` is deferred, as in a LINQ backend and as in Python's own generator expressions
-    (Fadl/SemLazy.lean): its elements are computed when something looks at them - `First`, indexing, iteration,
-    `Where` / `SelectMany` over it, aggregation, comparison, conversion to plain data.  An element that is never looked
-    at never fails."""
+    """Sequences of the world.  By default every operator is strict (Python lists).  Inside `with deferred():` `Select`
+    is deferred, as in a LINQ backend and as in Python's own generator expressions (Fadl/SemLazy.lean): its elements
+    are computed when something looks at them - `First`, indexing, iteration, `Where` / `SelectMany` over it,
+    aggregation, counting, comparison, conversion to plain data - and an element that is never looked at never fails.
+    The strict mode is the default because a deferred element evaluated later sees Python's late-bound loop variables
+    of the comprehension it was created in; the deferred mode is used to re-examine a query that failed under strict
+    lists where its original (with a real, lazy generator expression) did not."""
 
     def __iter__(self):
         return (_force(x) for x in list.__iter__(self))
@@ -62,6 +79,8 @@ class Seq(list):
         return "Seq(" + repr(list(iter(self))) + ")"
 
     def Select(self, f):
+        if not DEFERRED[0]:
+            return Seq(f(x) for x in self)
         return Seq(_Deferred(lambda x=x: f(_force(x))) for x in list.__iter__(self))
 
     def Where(self, f):
